@@ -292,7 +292,7 @@ def _capability_tables(p, led, mito):
     every ceiling over three capabilities (plus each single capability): the tool body runs exactly when the statement
     allows it, and a refusal is a failure result.  Returns (interpreted entry points, all rows hold)."""
     import itertools
-    from ..fdai import Interp, Obj, Unknown, PyRaise, explore, Imprecise, stub
+    from ..fdai import Interp, Obj, Unknown, PyRaise, SkipPath, explore, Imprecise, stub
     st = p.cls("SimpleTool", M)
     CAP = p.cls("Capability", "operon_ai/core/types.py")
     MP = p.cls("MetabolicPathway", M)
@@ -305,6 +305,9 @@ def _capability_tables(p, led, mito):
     subsets = [frozenset(c) for k in range(len(base) + 1) for c in itertools.combinations(base, k)]
     combos = [(r, a) for r in subsets for a in [None] + subsets]
     combos += [(frozenset({m_}), a) for m_ in members[3:] for a in (None, frozenset(), frozenset({m_}), frozenset(base))]
+    # declared requirements that are not members of the enumeration (a custom tag): never covered by a ceiling made of
+    # members, so the tool must be refused under every ceiling ("arbitrary required-capability sets")
+    combos += [(r_, a) for r_ in (frozenset({"§gpu"}), frozenset({base[0], "§shell"})) for a in (frozenset(), frozenset({base[0]}), frozenset(base))]
     ok_all = True
     EXECUTED_AT.clear()
     for label, how in (("metabolize ▸ tool pathway (forced)", "forced"), ("metabolize ▸ tool pathway (auto-detected)", "auto"), ("execute_tool_call", "call")):
@@ -321,7 +324,10 @@ def _capability_tables(p, led, mito):
                     EXECUTED_AT.update(interp.call_stack[-2:])
                     return "done"
                 m = it.instantiate(mito, [], dict(allowed_capabilities=(None if _allowed is None else {it.enum_member(CAP, c) for c in _allowed}), silent=True))
-                t = it.instantiate(st, [], dict(name="t", description="d", func=body, required_capabilities={it.enum_member(CAP, c) for c in _req}))
+                try:
+                    t = it.instantiate(st, [], dict(name="t", description="d", func=body, required_capabilities={(c[1:] if c.startswith("§") else it.enum_member(CAP, c)) for c in _req}))
+                except PyRaise as e_:
+                    raise SkipPath(f"the tool record rejects this declaration: {e_.exc!r}")
                 it.call_fi(p.find_method(mito, "engulf_tool"), [m, t], {})
                 try:
                     if how == "call":
